@@ -454,4 +454,20 @@ Section C02Model.
   Definition sup_vector (n : nat) (comps : list sup_comp) (qs : list (list T)) : list T :=
     fold_left (fun s cq => if su_active (fst cq) then vadd s (map (fun x => su_coeff (fst cq) * x) (snd cq)) else s)
               (combine comps qs) (repeat zero n).
+  (* ---------------------------------------------------------------- minimum image in a general (triclinic) cell
+     colvarproxy_system::update_pbc_lattice + position_distance: reciprocal vectors from cross products, the three
+     reduced coordinates rounded to the nearest integer (floor(x + 1/2)), the lattice vector subtracted *)
+  Definition recip_cell (a b c : V3) : V3 * V3 * V3 :=
+    let vx := v3cross b c in let vy := v3cross c a in let vz := v3cross a b in
+    (v3div vx (v3dot O vx a), v3div vy (v3dot O vy b), v3div vz (v3dot O vz c)).
+  Definition round_shift (x : T) : T := nofZ O (nfloor O (x + nhalf O)).
+  Definition pd_cell (a b c : V3) (p1 p2 : V3) : V3 :=
+    let d := v3sub O p2 p1 in
+    let '(rx, ry, rz) := recip_cell a b c in
+    let sx := round_shift (v3dot O rx d) in
+    let sy := round_shift (v3dot O ry d) in
+    let sz := round_shift (v3dot O rz d) in
+    let '(dx, dy, dz) := d in
+    let '(ax, ay, az) := a in let '(bx, by_, bz) := b in let '(cx, cy, cz) := c in
+    (dx - (sx * ax + sy * bx + sz * cx), dy - (sx * ay + sy * by_ + sz * cy), dz - (sx * az + sy * bz + sz * cz)).
 End C02Model.
